@@ -338,14 +338,24 @@ func multiSplit(value string, seps ...string) []string {
 }
 
 func recursiveCheck(value []string, funcs []func(string) bool) bool {
+	// failed remembers the suffixes (by their length) that cannot be
+	// segmented, so that each of them is only explored once
+	return recursiveCheckMemo(value, funcs, make(map[int]bool))
+}
+
+func recursiveCheckMemo(value []string, funcs []func(string) bool, failed map[int]bool) bool {
+	if failed[len(value)] {
+		return false
+	}
 	for i := 0; i < len(value); i++ {
 		tempVal := strings.Join(value[:i+1], " ")
 		for _, j := range funcs {
-			if j(tempVal) && (len(value[i+1:]) == 0 || recursiveCheck(value[i+1:], funcs)) {
+			if j(tempVal) && (len(value[i+1:]) == 0 || recursiveCheckMemo(value[i+1:], funcs, failed)) {
 				return true
 			}
 		}
 	}
+	failed[len(value)] = true
 	return false
 }
 
